@@ -19,6 +19,12 @@ CLAIMED = {
          "writer/reader constant agreement + path-sensitive must-pass-through"),
  "C12": ("marker/record/tally discipline: every validator-record deletion removes its deferred-action markers on the same path; marker and record are written together with the same height; stake changes update the tallies with the same value; deferred consumers delete exactly what they consumed; at most one unstaking/paused marker per validator",
          "path-sensitive pairing analysis (SSA) + provenance equality of amounts/heights + who-may-write"),
+ "C04": ("where supply can change and that handlers only move tokens: who-may-call on the mint/burn primitives and raw Supply.Total writes; every mint paired with an equal credit; per-function ledger balance by value identity of amount expressions on every success path; ledger layering",
+         "who-may-call/who-may-write + path-sensitive ledger balancing by expression identity (SSA)"),
+ "C14": ("evidence gate: a key is implicated only after both certificates verified, the views are equal in every field, payloads differ, the phase is above PROPOSE, evidence is fresh and the signer bit is set in both bitmaps; proposer slash lists are re-derived before the block is applied; index-then-slash once per (address,height); the per-committee cap is consulted before any burn",
+         "path-sensitive must-pass-through (SSA) + field coverage of View.Equals + operand provenance + writer/reader key agreement"),
+ "C20": ("order-book escrow clause only: account leg and pool leg carry the same amount expression on every success path, the pool id is chainId + the kind's addend on both sides, the stored order carries that amount; payout is followed by deletion of the same order; locked orders cannot be edited or deleted",
+         "path-sensitive ledger balancing by expression identity + provenance of pool ids + pairing"),
 }
 
 NOT_APPLICABLE = {
